@@ -573,6 +573,22 @@ theorem agg_array_agg (kvs : List (List Val × Val)) (hsc : ∀ p ∈ kvs, ∃ a
   refine ⟨atomsOf (groupVals kvs key), map_at_atomsOf _ (fun v hv => hsc _ (mem_groupVals.1 hv)), ?_⟩
   simp [hI key, arrSumm, hk, Acc.final]
 
+theorem atomsOf_map_at (as : List Atom) : atomsOf (as.map Val.at) = as := by
+  induction as with
+  | nil => rfl
+  | cons a t ih => simp only [List.map_cons, atomsOf, List.filterMap_cons]; exact congrArg _ ih
+
+/-- the same, stated for a given list of scalars: if the group's values are `as` (wrapped), the result is `Val.list as` -/
+theorem agg_array_agg_eq (kvs : List (List Val × Val)) (hsc : ∀ p ∈ kvs, ∃ a, p.2 = .at a) (c : AggCol)
+    (h : foldIncr { kind := some .arrayAgg } kvs = .ok c) (key : List Val) (as : List Atom)
+    (hne : as ≠ []) (has : groupVals kvs key = as.map Val.at) :
+    (lookupAcc c.stats key).map Acc.final = some (Val.list as) := by
+  obtain ⟨as', has', hf⟩ := agg_array_agg kvs hsc c h key (by rw [has]; simpa using hne)
+  have : as' = as := by
+    have := congrArg atomsOf (has'.trans has)
+    rwa [atomsOf_map_at, atomsOf_map_at] at this
+  rw [hf, this]
+
 /-- a list-valued argument anywhere makes ARRAY_AGG raise (nested lists are outside the value model) -/
 theorem agg_array_agg_nested (kvs : List (List Val × Val)) (hl : ∃ p ∈ kvs, ∃ l, p.2 = .list l)
     (c : AggCol) (hc : c.kind = some .arrayAgg) : foldIncr c kvs = .error .exc := by
@@ -705,5 +721,121 @@ theorem agg_const_iff (kvs : List (List Val × Val)) :
     · exact ⟨c', hc'⟩
     · simp only [List.nil_append] at hv hw
       exact absurd (hall key v w hv hw) hne
+
+/-! ### concrete instances
+
+Two groups `a` and `b`, interleaved; group `a` holds 3, 1, 7/2, 1 (in this order).  Each example
+instantiates the corresponding theorem and evaluates the mathematical right-hand side.
+(`decide +kernel` = plain kernel evaluation of the `Decidable` instance; core `Rat` arithmetic does not
+reduce with the elaborator's default transparency.) -/
+
+namespace AggExamples
+
+def kA : List Val := [Val.str "a".toList]
+def kB : List Val := [Val.str "b".toList]
+def kC : List Val := [Val.str "c".toList]
+
+def exNums : List (List Val × Val) :=
+  [(kA, Val.num 3), (kB, Val.num 10), (kA, Val.num 1), (kA, Val.num (7/2)), (kB, Val.num (-4)), (kA, Val.num 1)]
+
+/-- the same shape with numeric strings: group `a` holds "12", "-0.5", "3.25" -/
+def exStrs : List (List Val × Val) :=
+  [(kA, Val.str "12".toList), (kB, Val.str "7".toList), (kA, Val.str "-0.5".toList), (kA, Val.str "3.25".toList)]
+
+theorem exNums_hom : ∀ p ∈ exNums, ∃ x, numOfVal false p.2 = some x := by
+  simp [exNums, numOfVal, Val.num]
+
+theorem exNums_kA : (groupVals exNums kA).filterMap (numOfVal false) = [3, 1, 7/2, 1] := by decide +kernel
+theorem exNums_kA_ne : groupVals exNums kA ≠ [] := by decide +kernel
+
+theorem exStrs_hom : ∀ p ∈ exStrs, ∃ x, numOfVal true p.2 = some x := by
+  intro p hp
+  have : (numOfVal true p.2).isSome = true := by
+    revert p; decide +kernel
+  exact ⟨_, (Option.eq_some_of_isSome this)⟩
+
+theorem exStrs_kA : (groupVals exStrs kA).filterMap (numOfVal true) = [12, -1/2, 13/4] := by decide +kernel
+
+-- COUNT
+example (c : AggCol) (h : foldIncr { kind := some .count } exNums = .ok c) :
+    (lookupAcc c.stats kA).map Acc.final = some (Val.nat 4) ∧
+    (lookupAcc c.stats kB).map Acc.final = some (Val.nat 2) :=
+  ⟨agg_count exNums c h kA (by decide +kernel), agg_count exNums c h kB (by decide +kernel)⟩
+
+-- SUM, on numbers and on numeric strings
+example : ∃ c, foldIncr { kind := some .sum } exNums = .ok c ∧
+    (lookupAcc c.stats kA).map Acc.final = some (Val.num (17/2)) := by
+  obtain ⟨c, hc⟩ := agg_num_succeeds .sum rfl false exNums exNums_hom
+  refine ⟨c, hc, ?_⟩
+  have := agg_sum false exNums exNums_hom c hc kA exNums_kA_ne
+  rwa [exNums_kA, show ratSum [3, 1, 7/2, 1] = 17/2 by decide +kernel] at this
+
+example : ∃ c, foldIncr { kind := some .sum } exStrs = .ok c ∧
+    (lookupAcc c.stats kA).map Acc.final = some (Val.num (59/4)) := by
+  obtain ⟨c, hc⟩ := agg_num_succeeds .sum rfl true exStrs exStrs_hom
+  refine ⟨c, hc, ?_⟩
+  have := agg_sum true exStrs exStrs_hom c hc kA (by decide +kernel)
+  rwa [exStrs_kA, show ratSum [12, -1/2, 13/4] = 59/4 by decide +kernel] at this
+
+-- ANY_VALUE: the first value of the group
+example (c : AggCol) (h : foldIncr { kind := some .anyValue } exNums = .ok c) :
+    (lookupAcc c.stats kB).map Acc.final = some (Val.num 10) :=
+  agg_any_value exNums c h kB _ (by decide +kernel)
+
+-- ARRAY_AGG: exactly the group's scalars, in input order
+example (c : AggCol) (h : foldIncr { kind := some .arrayAgg } exNums = .ok c) :
+    (lookupAcc c.stats kA).map Acc.final = some (Val.list [.num 3, .num 1, .num (7/2), .num 1]) := by
+  exact agg_array_agg_eq exNums (by simp [exNums, Val.num]) c h kA _ (by simp) (by decide +kernel)
+
+-- the constant-column verifier: accepts constant groups, raises on `None` against a value
+example : ∃ c, foldIncr { kind := none } [(kA, Val.num 1), (kB, Val.none), (kA, Val.num 1), (kB, Val.none)] = .ok c ∧
+    (lookupAcc c.stats kB).map Acc.final = some Val.none := by
+  have hAB : kA ≠ kB := by decide
+  obtain ⟨c, hc⟩ := (agg_const_iff [(kA, Val.num 1), (kB, Val.none), (kA, Val.num 1), (kB, Val.none)]).2 (by
+    intro key v w hv hw
+    rw [mem_groupVals] at hv hw
+    simp only [List.mem_cons, Prod.mk.injEq, List.mem_nil_iff, or_false] at hv hw
+    grind)
+  exact ⟨c, hc, (agg_const_ok _ c hc kB).2⟩
+
+example : foldIncr { kind := none } [(kA, Val.num 1), (kB, Val.none), (kB, Val.num 0)] = .error .exc :=
+  agg_const_error _ kB Val.none (Val.num 0) (by decide +kernel) (by decide +kernel) (by decide +kernel)
+
+-- MIN / MAX
+example (c : AggCol) (h : foldIncr { kind := some .min } exNums = .ok c) :
+    (lookupAcc c.stats kA).map Acc.final = some (Val.num 1) := by
+  have := agg_min false exNums exNums_hom c h kA exNums_kA_ne
+  rwa [exNums_kA, show ratMin [3, 1, 7/2, 1] = 1 by decide +kernel] at this
+
+example (c : AggCol) (h : foldIncr { kind := some .max } exNums = .ok c) :
+    (lookupAcc c.stats kA).map Acc.final = some (Val.num (7/2)) := by
+  have := agg_max false exNums exNums_hom c h kA exNums_kA_ne
+  rwa [exNums_kA, show ratMax [3, 1, 7/2, 1] = 7/2 by decide +kernel] at this
+
+-- AVG
+example (c : AggCol) (h : foldIncr { kind := some .avg } exNums = .ok c) :
+    (lookupAcc c.stats kA).map Acc.final = some (Val.num (17/8)) := by
+  have := agg_avg false exNums exNums_hom c h kA exNums_kA_ne
+  rwa [exNums_kA, show ratAvg [3, 1, 7/2, 1] = 17/8 by decide +kernel] at this
+
+-- MEDIAN (even count: mean of the two middle elements 1 and 3)
+example (c : AggCol) (h : foldIncr { kind := some .median } exNums = .ok c) :
+    (lookupAcc c.stats kA).map Acc.final = some (Val.num 2) := by
+  have := agg_median false exNums exNums_hom c h kA exNums_kA_ne
+  have hm : medianOf [3, 1, 7/2, 1] = 2 := by
+    have h1 : ¬ (3 : Rat) ≤ 1 := by grind
+    have h2 : ¬ (7/2 : Rat) ≤ 1 := by grind
+    have h4 : (3 : Rat) ≤ 7/2 := by grind
+    simp [medianOf, List.mergeSort, List.MergeSort.Internal.splitInTwo, h1, h2, h4]
+    grind
+  rwa [exNums_kA, hm] at this
+
+-- VARIANCE: mean 17/8, squared deviations 49/64, 81/64, 121/64, 81/64, their mean 83/64
+example (c : AggCol) (h : foldIncr { kind := some .variance } exNums = .ok c) :
+    (lookupAcc c.stats kA).map Acc.final = some (Val.num (83/64)) := by
+  have := agg_variance false exNums exNums_hom c h kA exNums_kA_ne
+  rwa [exNums_kA, show ratVariance [3, 1, 7/2, 1] = 83/64 by decide +kernel] at this
+
+end AggExamples
 
 end Rbql
